@@ -52,7 +52,12 @@ func (c *Compactor) Compact(levels *LevelList) (*ChangeSet, error) {
 func (c *Compactor) majorCompaction(levels *LevelList, sar SAR) (*ChangeSet, error) {
 	// Go through all non-base levels from oldest to newest and pick tables to
 	// merge into base level.
+	// The selection must stay closed downwards: a level is only drawn from once
+	// every deeper level was taken completely, and once the goal is met no
+	// shallower level is touched. Otherwise a newer version of a key would be
+	// merged into the base level beneath an older version left in a level above.
 	var tablesToMerge []*Table
+selectTables:
 	for level := range levels.AscendLevels(1) {
 		tableIter := slices.SortedFunc(level.AllTables(), OrderOldToNew)
 
@@ -62,7 +67,7 @@ func (c *Compactor) majorCompaction(levels *LevelList, sar SAR) (*ChangeSet, err
 			sar = sar.WithCompactedBytes(int64(candidate.Size()))
 			tablesToMerge = append(tablesToMerge, candidate)
 			if sar.Percentage() < c.MaxSizeAmplificationPercent {
-				break
+				break selectTables
 			}
 		}
 	}
